@@ -55,20 +55,20 @@ theorem decodeRune_hi (c : UInt8) (t : Bytes) (h : 128 ≤ c.toNat) : 128 ≤ (d
   repeat' split
   all_goals (simp only; omega)
 
-theorem lookupOf_ascii (lookup : Nat) (hl : lookup ≠ 1) (c : UInt8) (h : c.toNat < 128) :
+theorem lookupOf_ascii (lookup : Nat) (hl : lookup = 0 ∨ lookup = 2) (c : UInt8) (h : c.toNat < 128) :
     lookupOf lookup c c.toNat = chr2int c := by
   unfold lookupOf
-  by_cases h0 : lookup = 0
+  rcases hl with h0 | h2
   · rw [if_pos h0]
-  · rw [if_neg h0, if_neg hl, if_pos (by omega)]
+  · rw [if_neg (by omega), if_pos h2, if_pos (by omega)]
     simp
 
-theorem lookupOf_hi (lookup : Nat) (hl : lookup ≠ 1) (c : UInt8) (r : Nat) (h : 128 ≤ c.toNat) (hr : 128 ≤ r) :
-    lookupOf lookup c r = none := by
+theorem lookupOf_hi (lookup : Nat) (hl : lookup = 0 ∨ lookup = 2) (c : UInt8) (r : Nat) (h : 128 ≤ c.toNat)
+    (hr : 128 ≤ r) : lookupOf lookup c r = none := by
   unfold lookupOf
-  by_cases h0 : lookup = 0
+  rcases hl with h0 | h2
   · rw [if_pos h0]; exact chr2int_hi c h
-  · rw [if_neg h0, if_neg hl]
+  · rw [if_neg (by omega), if_pos h2]
     split
     · rename_i h256
       apply chr2int_hi
@@ -77,7 +77,7 @@ theorem lookupOf_hi (lookup : Nat) (hl : lookup ≠ 1) (c : UInt8) (r : Nat) (h 
     · rfl
 
 /-- looking up the byte (0) or the code point at full width (2) at the code-point positions = the bytewise loop -/
-theorem valueR_eq (lookup : Nat) (hl : lookup ≠ 1) (s : Bytes) : ∀ acc, valueR lookup s 0 acc = value? s acc := by
+theorem valueR_eq (lookup : Nat) (hl : lookup = 0 ∨ lookup = 2) (s : Bytes) : ∀ acc, valueR lookup s 0 acc = value? s acc := by
   induction s with
   | nil => intro _; rfl
   | cons c t ih =>
@@ -92,7 +92,7 @@ theorem valueR_eq (lookup : Nat) (hl : lookup ≠ 1) (s : Bytes) : ∀ acc, valu
     · have h' : 128 ≤ c.toNat := by omega
       rw [lookupOf_hi lookup hl c _ h' (decodeRune_hi c t h'), chr2int_hi c h']
 
-theorem decodeGo_eq (ranges : Bool) (lookup : Nat) (hl : lookup ≠ 1) (s : Bytes) :
+theorem decodeGo_eq (ranges : Bool) (lookup : Nat) (hl : lookup = 0 ∨ lookup = 2) (s : Bytes) :
     decodeGo ranges lookup s = decode s := by
   have hv : valueGo ranges lookup s = value? s 0 := by
     unfold valueGo
